@@ -32,6 +32,119 @@ def load_inventory() -> Set[str]:
         return set(json.load(fh)["functions"])
 
 
+def load_class_inventory() -> Set[str]:
+    with open(os.path.join(_HERE, "inventory.json"), encoding="utf-8") as fh:
+        return set(json.load(fh).get("classes", []))
+
+
+def erase_namedtuples(trees: Dict[str, ast.Module], known_classes: Set[str]) -> List[str]:
+    """Unknown `class P(NamedTuple)` record types (fields only, no methods) are erased: `P(a, b)` / `P(x=a, y=b)` becomes
+    the tuple `(a, b)` and `.x` becomes `[0]` -- the tuple the rules already know how to follow.  A field whose name is
+    also an attribute or method name of some other class of the package is left as an attribute (ambiguous receiver)."""
+    report: List[str] = []
+    nts = []
+    for rel, tree in trees.items():
+        for st in tree.body:
+            if isinstance(st, ast.ClassDef) and f"{rel}::{st.name}" not in known_classes \
+                    and any(ast.unparse(b).split(".")[-1] == "NamedTuple" for b in st.bases):
+                fields, defaults, ok = [], {}, True
+                for x in st.body:
+                    if isinstance(x, ast.AnnAssign) and isinstance(x.target, ast.Name):
+                        fields.append(x.target.id)
+                        if x.value is not None:
+                            defaults[x.target.id] = x.value
+                    elif isinstance(x, ast.Expr) and isinstance(x.value, ast.Constant):
+                        continue
+                    elif isinstance(x, ast.Pass):
+                        continue
+                    else:
+                        ok = False
+                if ok and fields:
+                    nts.append((rel, st, fields, defaults))
+    if not nts:
+        return report
+    # attribute / method names in use on other objects of the package
+    taken: Set[str] = set()
+    for rel, tree in trees.items():
+        for n in ast.walk(tree):
+            if isinstance(n, ast.Attribute) and isinstance(n.ctx, ast.Store):
+                taken.add(n.attr)
+            elif isinstance(n, _DEFS):
+                taken.add(n.name)
+            elif isinstance(n, ast.ClassDef) and not any(n is c for _, c, _, _ in nts):
+                for x in n.body:
+                    if isinstance(x, ast.AnnAssign) and isinstance(x.target, ast.Name):
+                        taken.add(x.target.id)
+                    elif isinstance(x, ast.Assign):
+                        for t in x.targets:
+                            if isinstance(t, ast.Name):
+                                taken.add(t.id)
+    names = {}
+    for rel, cnode, fields, defaults in nts:
+        if cnode.name in names:
+            prev = names[cnode.name]
+            if prev[2] != fields:
+                names[cnode.name] = None            # two different records of the same name: leave both alone
+            continue
+        names[cnode.name] = (rel, cnode, fields, defaults)
+    names = {k: v for k, v in names.items() if v is not None}
+    field_index: Dict[str, int] = {}
+    clash = set()
+    for _, _, fields, _ in names.values():
+        for i, f in enumerate(fields):
+            if f in field_index and field_index[f] != i:
+                clash.add(f)
+            field_index[f] = i
+    usable = {f: i for f, i in field_index.items() if f not in taken and f not in clash}
+
+    class Erase(ast.NodeTransformer):
+        def visit_Call(self, n):
+            self.generic_visit(n)
+            if isinstance(n.func, ast.Name) and n.func.id in names and not any(isinstance(a, ast.Starred) for a in n.args) \
+                    and all(k.arg for k in n.keywords):
+                _, _, fields, defaults = names[n.func.id]
+                vals: Dict[str, ast.expr] = {}
+                for f, a in zip(fields, n.args):
+                    vals[f] = a
+                for k in n.keywords:
+                    vals[k.arg] = k.value
+                for f in fields:
+                    if f not in vals and f in defaults:
+                        vals[f] = copy.deepcopy(defaults[f])
+                if set(vals) == set(fields):
+                    t = ast.Tuple(elts=[vals[f] for f in fields], ctx=ast.Load())
+                    return ast.fix_missing_locations(ast.copy_location(t, n))
+            return n
+
+        def visit_Attribute(self, n):
+            self.generic_visit(n)
+            if isinstance(n.ctx, ast.Load) and n.attr in usable:
+                sub = ast.Subscript(value=n.value, slice=ast.Constant(value=usable[n.attr]), ctx=ast.Load())
+                return ast.fix_missing_locations(ast.copy_location(sub, n))
+            return n
+
+    for rel, tree in trees.items():
+        # attribute loads that are the callee of a call (`fh.read()`) are never field reads
+        for n in ast.walk(tree):
+            if isinstance(n, ast.Call) and isinstance(n.func, ast.Attribute) and n.func.attr in usable:
+                n.func._sa_keep = True
+        er = Erase()
+        orig_visit_attr = er.visit_Attribute
+
+        def visit_attr(n, _o=orig_visit_attr, _er=er):
+            if getattr(n, "_sa_keep", False):
+                _er.generic_visit(n)
+                return n
+            return _o(n)
+        er.visit_Attribute = visit_attr            # type: ignore[method-assign]
+        er.visit(tree)
+    for cname, (rel, cnode, fields, _) in sorted(names.items()):
+        kept = [f for f in fields if f not in usable]
+        report.append(f"erased NamedTuple {rel}::{cname}({', '.join(fields)}) into plain tuples"
+                      + (f"; field(s) {kept} left as attributes (name also used on other objects)" if kept else ""))
+    return report
+
+
 def function_keys(rel: str, tree: ast.Module):
     """Yield (key, node, cls_name, outer_node) in the format of model.Fn.key."""
     def visit(body, cls, outer, outer_qual):
@@ -490,6 +603,8 @@ def normalise(trees: Dict[str, ast.Module], inventory: Optional[Set[str]] = None
     """Inline unknown functions in place.  Returns report lines."""
     inv = load_inventory() if inventory is None else inventory
     report: List[str] = []
+    if inventory is None:
+        report += erase_namedtuples(trees, load_class_inventory())
     dotted = {}
     for rel in trees:
         d = rel[:-3].replace("/", ".")
